@@ -295,14 +295,14 @@ theorem updateValidatorStake_inv {L L' : Ledger} {a : Addr} {old val : Validator
     intro L2 hv2 hu2 hp2 pl2 s1 s2 s3 s4
     obtain ⟨m, w⟩ := markers_sameStatus (L' := valPut L2 a nv) (v := nv) hs.markers hs.wfm hg
       (by show AMap.set L2.validators a _ = _; rw [hv2]) hu2 hp2 n4 n5
-    refine InvStaking.mk' ⟨?_, ?_, ?_, ?_⟩ m w pl2
+    refine InvStaking.mk' ⟨?_, ?_, ?_, ?_⟩ m w ⟨pl2.committee, pl2.delegated⟩
     · show L2.supply.staked = sumBy _ (AMap.set L2.validators a nv)
       rw [s1, hv2]; have := t.staked; unfold stakeSum at this; omega
     · show L2.supply.delegatedOnly = sumBy _ (AMap.set L2.validators a nv)
       rw [s2, hv2]; have := t.delegated; unfold dstakeSum at this
       by_cases hod : old.delegate = true
-      · simp only [hod, if_true] at w2 ⊢; omega
-      · simp only [hod, if_false] at w2 ⊢; omega
+      · simp only [hod, ↓reduceIte] at w2 ⊢; omega
+      · simp only [hod, ↓reduceIte, Bool.false_eq_true] at w2 ⊢; omega
     · intro c
       show comGet L2 c = sumBy _ (AMap.set L2.validators a nv)
       rw [hv2]
@@ -317,8 +317,8 @@ theorem updateValidatorStake_inv {L L' : Ledger} {a : Addr} {old val : Validator
       rw [hg'] at q3; simp only [ow_some, n1, n2, n3] at q3
       unfold dcomSum at q4
       by_cases hod : old.delegate = true
-      · simp only [hod, if_true] at q1 q3; omega
-      · simp only [hod, if_false] at q1 q3; omega
+      · simp only [hod, ↓reduceIte] at q1 q3; omega
+      · simp only [hod, ↓reduceIte, Bool.false_eq_true] at q1 q3; omega
   by_cases hd : val.delegate = true
   · have hod : old.delegate = true := by rw [← e2]; exact hd
     rw [if_pos hd] at h
@@ -344,7 +344,7 @@ theorem updateValidatorStake_inv {L L' : Ledger} {a : Addr} {old val : Validator
       have q1 := a2 c; have q2 := b2 c
       unfold delGet at *; dsimp only at *
       rw [e1, e3] at q1; rw [e1] at q2
-      simp only [hod, if_true]; omega
+      simp only [hod, ↓reduceIte]; omega
   · have hod : ¬ old.delegate = true := by rw [← e2]; exact hd
     rw [if_neg hd] at h
     obtain ⟨L2, h2, h⟩ := bind_ok h
@@ -365,6 +365,128 @@ theorem updateValidatorStake_inv {L L' : Ledger} {a : Addr} {old val : Validator
     · intro c
       have q1 := a2 c; have q2 := b2 c
       unfold delGet at *; dsimp only at *
-      simp only [hod, if_false]; omega
+      simp only [hod, ↓reduceIte, Bool.false_eq_true]; omega
+
+end Canopy.Ledger
+
+namespace Canopy.Ledger
+open AMap
+set_option linter.unusedSimpArgs false
+set_option linter.unusedVariables false
+
+/-- `HandleMessageEditStake` keeps `InvStaking` -/
+theorem handleEditStake_inv' {L L' : Ledger} {s a o : Addr} {x : Nat} {cs : List Nat} {c : Bool} (hi : InvSupply L)
+    (hs : InvStaking L) (h : handleEditStake L s a x cs c o = .ok L') : InvStaking L' := by
+  obtain ⟨val, L1, hv, _, h1, h2⟩ := handleEditStake_inv h
+  obtain ⟨acc, rfl, e1⟩ := accountSub_ok h1
+  have hst := stake_le L a val hv
+  have hs1 : InvStaking { L with accounts := acc } := hs.of_same rfl rfl rfl rfl rfl rfl rfl
+  have hv1 : valGet? { L with accounts := acc } a = some val := hv
+  refine updateValidatorStake_inv (old := val) (val := { val with output := o, compound := c }) hs1 hv1 rfl rfl rfl rfl rfl ?_ h2
+  obtain ⟨i1, i2⟩ := hi
+  show val.stake + _ < U64
+  unfold bal at i1
+  have ea : accSum { L with accounts := acc } = NMap.total acc := rfl
+  rw [ea] at e1
+  have : accSum L = NMap.total L.accounts := rfl
+  omega
+
+/-- a fresh record with no status keeps the marker biconditionals -/
+theorem markers_fresh {L L' : Ledger} {a : Addr} {v : Validator} (hm : Markers L) (hw : WFm L) (hg : valGet? L a = none)
+    (hv : L'.validators = AMap.set L.validators a v) (hu : L'.unstaking = L.unstaking) (hp : L'.paused = L.paused)
+    (h1 : v.unstakingHeight = 0) (h2 : v.maxPausedHeight = 0) : Markers L' ∧ WFm L' := by
+  have hget : ∀ b, valGet? L' b = if a = b then some v else valGet? L b := by
+    intro b; unfold valGet?; rw [hv]; exact find?_set _ _ _ _
+  refine ⟨⟨?_, ?_, ?_⟩, ⟨by rw [hv]; exact nodup_set _ _ _ hw.validators, by rw [hu]; exact hw.unstaking, by rw [hp]; exact hw.paused⟩⟩
+  · intro h b
+    rw [hu, hget]
+    constructor
+    · intro e
+      obtain ⟨vb, hvb, he, hne⟩ := (hm.unstaking h b).1 e
+      have hab : a ≠ b := by intro e'; subst e'; rw [hg] at hvb; cases hvb
+      exact ⟨vb, by simp [hab, hvb], he, hne⟩
+    · rintro ⟨vb, hvb, he, hne⟩
+      by_cases hab : a = b
+      · subst hab; simp only [if_true, Option.some.injEq] at hvb; subst hvb; exact absurd (he ▸ h1) hne
+      · simp only [hab, if_false] at hvb; exact (hm.unstaking h b).2 ⟨vb, hvb, he, hne⟩
+  · intro h b
+    rw [hp, hget]
+    constructor
+    · intro e
+      obtain ⟨vb, hvb, he, hne⟩ := (hm.paused h b).1 e
+      have hab : a ≠ b := by intro e'; subst e'; rw [hg] at hvb; cases hvb
+      exact ⟨vb, by simp [hab, hvb], he, hne⟩
+    · rintro ⟨vb, hvb, he, hne⟩
+      by_cases hab : a = b
+      · subst hab; simp only [if_true, Option.some.injEq] at hvb; subst hvb; exact absurd (he ▸ h2) hne
+      · simp only [hab, if_false] at hvb; exact (hm.paused h b).2 ⟨vb, hvb, he, hne⟩
+  · intro b vb hvb hne
+    rw [hget] at hvb
+    by_cases hab : a = b
+    · subst hab; simp only [if_true, Option.some.injEq] at hvb; subst hvb; exact h2
+    · simp only [hab, if_false] at hvb; exact hm.exclusive b vb hvb hne
+
+/-- `HandleMessageStake` keeps `InvStaking` -/
+theorem handleStake_inv' {L L' : Ledger} {s a o : Addr} {x : Nat} {cs : List Nat} {d c : Bool}
+    (hs : InvStaking L) (h : handleStake L s a x cs d c o = .ok L') : InvStaking L' := by
+  obtain ⟨hnone, _, L1, L2, L3, h1, h2, h3, rfl⟩ := handleStake_inv h
+  obtain ⟨acc, rfl, _⟩ := accountSub_ok h1
+  obtain rfl := addToStaked_ok h2
+  have t := hs.tallies
+  obtain ⟨nv, hnv⟩ : ∃ nv : Validator, nv = { stake := x, committees := cs, delegate := d, compound := c, output := o } := ⟨_, rfl⟩
+  rw [← hnv]
+  have n1 : nv.stake = x := by rw [hnv]
+  have n2 : nv.delegate = d := by rw [hnv]
+  have n3 : nv.committees = cs := by rw [hnv]
+  have hg' : find? L.validators a = none := hnone
+  have w1 := sumBy_set (fun v : Validator => v.stake) L.validators a nv
+  have w2 := sumBy_set (fun v : Validator => if v.delegate then v.stake else 0) L.validators a nv
+  have w3 := fun c => sumBy_set (fun v : Validator => v.stake * v.committees.count c) L.validators a nv
+  have w4 := fun c => sumBy_set (fun v : Validator => if v.delegate then v.stake * v.committees.count c else 0) L.validators a nv
+  rw [hg'] at w1 w2
+  simp only [ow_none, n1, n2, Nat.add_zero] at w1 w2
+  have fin : ∀ L3 : Ledger, L3.validators = L.validators → L3.unstaking = L.unstaking → L3.paused = L.paused → Pools L3 →
+      L3.supply.staked = L.supply.staked + x → L3.supply.delegatedOnly = L.supply.delegatedOnly + (if d then x else 0) →
+      (∀ c, comGet L3 c = comGet L c + x * cs.count c) →
+      (∀ c, delGet L3 c = delGet L c + (if d then x * cs.count c else 0)) → InvStaking (valPut L3 a nv) := by
+    intro L3 hv3 hu3 hp3 pl3 s1 s2 s3 s4
+    obtain ⟨m, w⟩ := markers_fresh (L' := valPut L3 a nv) (v := nv) hs.markers hs.wfm hnone
+      (by show AMap.set L3.validators a _ = _; rw [hv3]) hu3 hp3 (by rw [hnv]) (by rw [hnv])
+    refine InvStaking.mk' ⟨?_, ?_, ?_, ?_⟩ m w ⟨pl3.committee, pl3.delegated⟩
+    · show L3.supply.staked = sumBy _ (AMap.set L3.validators a nv)
+      rw [s1, hv3]; have := t.staked; unfold stakeSum at this; omega
+    · show L3.supply.delegatedOnly = sumBy _ (AMap.set L3.validators a nv)
+      rw [s2, hv3]; have := t.delegated; unfold dstakeSum at this; omega
+    · intro c'
+      show comGet L3 c' = sumBy _ (AMap.set L3.validators a nv)
+      rw [hv3]
+      have q3 := w3 c'; have q4 := t.committee c'
+      rw [hg'] at q3; simp only [ow_none, n1, n3, Nat.add_zero] at q3
+      unfold comSum at q4
+      rw [s3 c']; omega
+    · intro c'
+      show delGet L3 c' = sumBy _ (AMap.set L3.validators a nv)
+      rw [hv3]
+      have q3 := w4 c'; have q4 := t.committeeDelegated c'
+      rw [hg'] at q3; simp only [ow_none, n1, n2, n3, Nat.add_zero] at q3
+      unfold dcomSum at q4
+      rw [s4 c']; omega
+  cases d with
+  | true =>
+    simp only [if_true] at h3
+    obtain ⟨L2', h4, h5⟩ := h3
+    obtain rfl := addToDelegated_ok h4
+    have sc := sameCore_setDelegations h5
+    obtain ⟨b1, b2, b3⟩ := setDelegations_eff (L := { L with accounts := acc, supply := { L.supply with staked := L.supply.staked + x, delegatedOnly := L.supply.delegatedOnly + x } })
+      ⟨hs.wf.committee, hs.wf.delegated⟩ h5
+    exact fin L3 sc.validators sc.unstaking sc.paused b3 sc.staked (by rw [sc.delegatedOnly]; rfl)
+      (fun c' => by rw [b1 c']; rfl) (fun c' => by rw [b2 c']; rfl)
+  | false =>
+    simp only [Bool.false_eq_true, if_false] at h3
+    have sc := sameCore_setCommittees h3
+    obtain ⟨b1, b2, b3⟩ := setCommittees_eff (L := { L with accounts := acc, supply := { L.supply with staked := L.supply.staked + x } })
+      ⟨hs.wf.committee, hs.wf.delegated⟩ h3
+    exact fin L3 sc.validators sc.unstaking sc.paused b3 sc.staked (by rw [sc.delegatedOnly]; rfl)
+      (fun c' => by rw [b1 c']; rfl) (fun c' => by rw [b2 c']; rfl)
 
 end Canopy.Ledger
